@@ -33,6 +33,7 @@ type FieldLayout struct {
 	GoField int        `json:"-"` // struct field index (-1 unknown)
 	Pos     token.Pos  `json:"-"`
 	Ev      []*Event   `json:"-"`
+	ZeroList bool      `json:"-"` // list on a path where its count is zero: no element layout of its own
 	ValueOps []string  `json:"-"` // transformations on the value path that are not on the lossless allow-list
 	WireIDs []int      `json:"-"` // decode: ids of the read events feeding this field
 	KeyVal  *Val       `json:"-"`
@@ -60,7 +61,11 @@ func (f *FieldLayout) Canon() string {
 	case "ptext":
 		fmt.Fprintf(&b, "(%s,%s)", f.Prefix, f.POrder)
 	case "list":
-		fmt.Fprintf(&b, "(%s,%s)[%s]", f.Prefix, f.POrder, f.Elem.Canon())
+		if f.Elem == nil {
+			fmt.Fprintf(&b, "(%s,%s)[no elements on this path]", f.Prefix, f.POrder)
+		} else {
+			fmt.Fprintf(&b, "(%s,%s)[%s]", f.Prefix, f.POrder, f.Elem.Canon())
+		}
 	case "obj":
 		b.WriteString("(" + f.Obj + ")")
 	case "dyn":
@@ -370,6 +375,7 @@ type layoutCtx struct {
 	// subject naming
 	elemOf *Val // when inside a REP body: the list whose elements are subjects
 	tiles  func(ev *Event, n int64) []*FieldLayout // decode: fields assembled from sub-slices of one constant-size read
+	zeroList func(ev *Event) (name string, idx int, ok bool) // decode: the list field set to a fresh empty list on a path where the count read by ev is zero
 	nested map[string][2]int // provisional names "X.#i" of fields of a nested part handled inline -> (X, i)
 }
 
@@ -1334,6 +1340,14 @@ func (c *layoutCtx) extractDec(evs []*Event, sink func(wireIDs []int, loop int) 
 			f := intLayout(ev)
 			f.WireIDs = []int{ev.ID}
 			name, idx, v, ok := sink([]int{ev.ID}, 0)
+			if !ok && c.zeroList != nil {
+				// the count read is zero on this path and the list field is set to a fresh empty list: the zero-count
+				// case of the list (its element layout is whatever the paths that read elements say)
+				if zn, zi, okZ := c.zeroList(ev); okZ {
+					out = append(out, &FieldLayout{Kind: "list", Prefix: typeStr(ev.IntType), POrder: ev.Order, Name: zn, GoField: zi, Pos: rootPos(ev), Ev: []*Event{ev}, WireIDs: []int{ev.ID}, ZeroList: true})
+					continue
+				}
+			}
 			if ok {
 				f.Name, f.GoField = name, idx
 				ops, _, _, _ := valuePath(v, ev.ID, false, c.loops())
